@@ -84,10 +84,11 @@ __CPROVER_assigns();
 
 /* at(dim): the dim-th component for dim < NC.  The real code has no bounds check: for dim >= NC it reads outside the
  * object (undefined behaviour), which the precondition excludes. */
+extern int verif_exc;
 T FN(at)(const V* self, size_t dim)
-__CPROVER_requires(SELF_IN && dim == g_dim && dim < NC)
-__CPROVER_ensures(__CPROVER_return_value == AT(self, dim))
-__CPROVER_assigns();
+__CPROVER_requires(SELF_IN && dim == g_dim && dim < NC && verif_exc == 0)
+__CPROVER_ensures(verif_exc == 0 && __CPROVER_return_value == AT(self, dim))      /* every valid index yields its component (no exception) */
+__CPROVER_assigns(verif_exc);
 
 T FN(norm1)(const V* self)
 __CPROVER_requires(SELF_IN && OK_SUMC(S_ID))
